@@ -283,6 +283,7 @@ func (e *Engine) c15Obligations(prop string) []*Obl {
 		"the stored Hash field is not an input of the block hash", "h.Hash is read"))
 	// (3) commit-proof signatures: the per-block signature list must be looked up with the map's own key.
 	out = append(out, e.c15ProofLookup(block, props)...)
+	out = append(out, e.c15RenderedSignatures(block, props)...)
 
 	// (4) sign bytes: kind prefixes pairwise prefix-free; arguments as labelled; nil separated from non-nil
 	var prefixes []string
@@ -658,4 +659,170 @@ func reflectTagGet(tag, key string) string {
 		}
 	}
 	return ""
+}
+
+// c15RenderedSignatures: every signature of a vote target reaches the hasher. The rendered "keyid:sig" strings of one
+// target are collected in a slice, sorted, and written; this holds only if that slice (1) is made anew for each target
+// with exactly len(sigs) elements, unconditionally before it is filled, sorted and written (a slice shared between
+// targets, or made under a condition, lets stale entries of another target displace this target's signatures once the
+// whole slice is sorted), (2) is the slice that is sorted, and (3) is the slice whose elements are written.
+func (e *Engine) c15RenderedSignatures(fn *ssa.Function, props []string) []*Obl {
+	var out []*Obl
+	pos := posStr(e.fset, fn.Pos())
+	name := "tmconsensustest.SimpleHashScheme.Block/rendered-signatures"
+	allocOfLoad := func(v ssa.Value) *ssa.Alloc {
+		for d := 0; d < 6; d++ {
+			switch x := v.(type) {
+			case *ssa.UnOp:
+				if x.Op != token.MUL {
+					return nil
+				}
+				if al, ok := x.X.(*ssa.Alloc); ok {
+					return al
+				}
+				return nil
+			case *ssa.ChangeType:
+				v = x.X
+			case *ssa.Convert:
+				v = x.X
+			default:
+				return nil
+			}
+		}
+		return nil
+	}
+	// the slice that receives the rendered "%x:%x" strings of KeyID and Sig
+	var S *ssa.Alloc
+	var fillBlock *ssa.BasicBlock
+	for _, fc := range fmtCalls(e, fn) {
+		if len(fc.args) != 2 || !strings.HasSuffix(fc.args[0], ".KeyID") || !strings.HasSuffix(fc.args[1], ".Sig") {
+			continue
+		}
+		for _, ref := range *fc.instr.Referrers() {
+			st, ok := ref.(*ssa.Store)
+			if !ok {
+				continue
+			}
+			if ia, ok := st.Addr.(*ssa.IndexAddr); ok {
+				S = allocOfLoad(ia.X)
+				fillBlock = st.Block()
+			}
+		}
+	}
+	out = append(out, structObl(name+"/collected", props, pos, S != nil,
+		"the rendered key-id:signature strings are stored into a local slice", "no store of the rendered signature into a slice element found"))
+	if S == nil {
+		return out
+	}
+	// (1) one unconditional make([]string, len(sigs)) per target
+	var stores []*ssa.Store
+	for _, ref := range *S.Referrers() {
+		if st, ok := ref.(*ssa.Store); ok && st.Addr == ssa.Value(S) {
+			stores = append(stores, st)
+		}
+	}
+	okMake, detail := false, fmt.Sprintf("%d assignments to %s", len(stores), S.Comment)
+	var makeBlock *ssa.BasicBlock
+	var sigsAlloc *ssa.Alloc
+	if len(stores) == 1 {
+		if mk, ok := stores[0].Val.(*ssa.MakeSlice); ok {
+			lenOf := func(v ssa.Value) *ssa.Alloc {
+				if c, ok := v.(*ssa.Call); ok {
+					if b, ok := c.Call.Value.(*ssa.Builtin); ok && b.Name() == "len" && len(c.Call.Args) == 1 {
+						return allocOfLoad(c.Call.Args[0])
+					}
+				}
+				return nil
+			}
+			la, ca := lenOf(mk.Len), lenOf(mk.Cap)
+			if la != nil && la == ca {
+				sigsAlloc = la
+				makeBlock = stores[0].Block()
+				okMake = true
+			} else {
+				detail = "the slice is not made with len(signatures of the target) elements"
+			}
+		} else {
+			detail = "the only assignment is not a make"
+		}
+	}
+	out = append(out, structObl(name+"/made-per-target-with-one-slot-per-signature", props, pos, okMake,
+		"the slice of rendered signatures has exactly one assignment: make([]string, len(sigs))", detail))
+	if !okMake {
+		return out
+	}
+	// sigs is the lookup of this target in the commit proof, in the same iteration, before the make
+	okSigs := false
+	for _, ref := range *sigsAlloc.Referrers() {
+		if st, ok := ref.(*ssa.Store); ok && st.Addr == ssa.Value(sigsAlloc) {
+			v := st.Val
+			if ex, ok := v.(*ssa.Extract); ok {
+				v = ex.Tuple
+			}
+			if lk, ok := v.(*ssa.Lookup); ok && provenance(lk.X, 0) == "h.PrevCommitProof.Proofs" && st.Block().Dominates(makeBlock) {
+				okSigs = true
+			}
+		}
+	}
+	out = append(out, structObl(name+"/sized-by-this-targets-signatures", props, pos, okSigs,
+		"the length is that of the signature list looked up for this target just before", "len() is not taken of the commit-proof entry of the current target"))
+	out = append(out, structObl(name+"/made-before-filled", props, pos, fillBlock != nil && makeBlock.Dominates(fillBlock) && makeBlock != fillBlock,
+		"every path that fills the slice first makes it (no slice kept from an earlier target)", "the make does not dominate the loop that fills the slice"))
+	// (2) the sorted slice and (3) the written elements
+	nSort, okSort := 0, true
+	nWrite, okWrite := 0, true
+	for _, b := range fn.Blocks {
+		for _, in := range b.Instrs {
+			c, ok := in.(*ssa.Call)
+			if !ok {
+				continue
+			}
+			callee := c.Call.StaticCallee()
+			if callee == nil {
+				continue
+			}
+			switch callee.String() {
+			case "sort.Strings":
+				if al := allocOfLoad(c.Call.Args[0]); al == S {
+					nSort++
+					if !makeBlock.Dominates(b) {
+						okSort = false
+					}
+				} else if _, isSlice := c.Call.Args[0].(*ssa.Slice); isSlice {
+					if sl := c.Call.Args[0].(*ssa.Slice); allocOfLoad(sl.X) == S {
+						nSort++
+						okSort = false // a part of the slice is sorted: not covered by this argument
+					}
+				}
+			case "(*bytes.Buffer).WriteString":
+				// WriteString(s) with s loaded from a local that is assigned an element of S
+				if len(c.Call.Args) == 2 {
+					if al := allocOfLoad(c.Call.Args[1]); al != nil {
+						for _, ref := range *al.Referrers() {
+							if st, ok := ref.(*ssa.Store); ok && st.Addr == ssa.Value(al) {
+								if ld, ok := st.Val.(*ssa.UnOp); ok && ld.Op == token.MUL {
+									if ia, ok := ld.X.(*ssa.IndexAddr); ok && allocOfLoad(ia.X) == S {
+										nWrite++
+										if !makeBlock.Dominates(b) {
+											okWrite = false
+										}
+									}
+								}
+							}
+						}
+					} else if ld, ok := c.Call.Args[1].(*ssa.UnOp); ok && ld.Op == token.MUL {
+						if ia, ok := ld.X.(*ssa.IndexAddr); ok && allocOfLoad(ia.X) == S {
+							nWrite++
+							okWrite = false // indexed by something other than a range over the slice itself: not covered
+						}
+					}
+				}
+			}
+		}
+	}
+	out = append(out, structObl(name+"/sorted-whole-and-only-after-made", props, pos, nSort == 1 && okSort,
+		"the slice made for this target is sorted whole, once", fmt.Sprintf("%d sort.Strings calls on the slice (or a partial / unguarded sort)", nSort)))
+	out = append(out, structObl(name+"/written-by-ranging-over-it", props, pos, nWrite == 1 && okWrite,
+		"the elements written to the hash input are obtained by ranging over that same slice", fmt.Sprintf("%d writes of its elements (or indexed otherwise than by its own range)", nWrite)))
+	return out
 }
